@@ -75,7 +75,7 @@ func isChoiceMsg(md protoreflect.MessageDescriptor) bool {
 var dateTexts = []string{"2020", "2020-02", "2020-02-29", "2019-12-31"}
 var dateTimeTexts = []string{"2020", "2020-02", "2020-02-29", "2020-02-29T10:30:15Z", "2020-02-29T10:30:15+05:30", "2020-02-29T10:30:15.250-11:00", "2019-12-31T23:59:59.999999Z", "2021-06-15T10:30:00-03:30", "2000-01-01T23:50:00-00:30"}
 var instantTexts = []string{"2020-02-29T10:30:15Z", "2020-02-29T10:30:15.250+05:30", "2019-12-31T23:59:59.999999-11:00", "2021-06-15T23:45:10.250-09:30", "2021-06-15T23:45:10+00:45"}
-var timeTexts = []string{"10:30:15", "10:30:15.250", "23:59:59.999999"}
+var timeTexts = []string{"10:30:15", "10:30:15.250", "23:59:59.999999", "08:30:00.045", "23:59:59.000120"}
 var stringTexts = []string{"a", "b c", "é€", "x-1", "Smith"}
 
 func (g *gen) next() int { g.counter++; return g.counter + g.variant }
